@@ -793,6 +793,26 @@ theorem ms_pad_same_decode (os1 os2 : Nat → Oracle) (l : Layout.ChannelLayout)
     ⟨hl, hv', outPacket_frames _ _ _ _ _, outPacket_toc _ _ _ _ _⟩ hn hos frame_size fec sc
   exact ⟨h1, h2, h3, h4, h5⟩
 
+/-- The complement of `out_roundtrip_ext`'s hypothesis `hpos`: no caller extensions and NOTHING gathered for
+    this range — whether because the overlapping paddings carry nothing / are malformed, or because every
+    extension stored in them belongs to a frame outside `[begin,end)`, and whatever paddings of packets
+    outside the range contain.  Then `out_range_impl` behaves exactly as in the extension-free case
+    (`out_roundtrip` / `out_size` verbatim).  Together with `out_roundtrip_ext` (gathered list non-empty)
+    every reachable state, range and argument is covered. -/
+theorem out_nothing_gathered (s : Rp) (hs : Reachable s) (b e : Nat) (hb : b < e) (he : e ≤ s.nbFrames)
+    (hnil : gathered (s.pads.take e) 0 b e = []) (maxlen : Int) (sd pad : Bool) :
+    outRangeImpl s b e maxlen sd pad #[] =
+      (if minSize sd ((selFrames s b e).map List.length) > maxlen then .err .bufferTooSmall
+       else .ok (serialize sd (outPacket s.toc (selFrames s b e) maxlen sd pad))) ∧
+    (minSize sd ((selFrames s b e).map List.length) ≤ maxlen →
+       Valid (outPacket s.toc (selFrames s b e) maxlen sd pad) ∧
+       (outPacket s.toc (selFrames s b e) maxlen sd pad).frames = selFrames s b e ∧
+       ((serialize sd (outPacket s.toc (selFrames s b e) maxlen sd pad)).length : Int) =
+         (if pad then maxlen else minSize sd ((selFrames s b e).map List.length))) :=
+  ⟨outRangeImpl_nogather s (reachable_padsOk hs) b e hb he hnil maxlen sd pad,
+   fun hfit => ⟨outPacket_valid _ _ (selFrames_ok s (reachable_inv hs) b e hb he).1 _ _ _ hfit, outPacket_frames _ _ _ _ _,
+     outPacket_len _ _ (selFrames_ok s (reachable_inv hs) b e hb he).1.ne _ _ _ hfit⟩⟩
+
 /-- The extension-free hypothesis is met by everything the library itself pads: zero padding (and no
     padding) has extension count 0 (`count_zeros` is C16's lemma), so packets produced by `out` with
     `pad` or by `opus_packet_pad` can be `cat`-ed / padded / unpadded again under the theorems above. -/
@@ -913,6 +933,15 @@ example : gathered (exStateX.pads.take 2) 0 1 2 = [{ id := 5, frame := 0, data :
     (by intro e he; simp at he; subst he; exact (validExt_iff _ _).mpr (by decide)) ⟨by decide, trivial⟩ (by decide)
   rw [exPadsX.1]
   simp only [List.take, gathered, h]
+  decide +kernel
+
+/-- … and for the range (0,1) of the same state the stored extension belongs to frame 1, outside the range:
+    nothing is gathered although the stored padding is a non-empty extension list (`out_nothing_gathered`). -/
+example : gathered (exStateX.pads.take 1) 0 0 1 = [] ∧ padRefs exStateX.pads.head!.1 exStateX.pads.head!.2 ≠ [] := by
+  have h := padRefs_ser [{ id := 5, frame := 1, data := [0x5A], len := 1 }] 2 (by decide)
+    (by intro e he; simp at he; subst he; exact (validExt_iff _ _).mpr (by decide)) ⟨by decide, trivial⟩ (by decide)
+  rw [exPadsX.1]
+  simp only [List.take, gathered, List.head!, h]
   decide +kernel
 
 /-- (c) hypotheses of `out_roundtrip_ext_nopad` with a repeat-eligible list (ID 5 in both frames, on top of the
